@@ -166,6 +166,8 @@ type Exec struct {
 	sprintfNames map[string]string
 	activeChild *Builder
 	callCount      map[string]int
+	callOrd        map[*ssa.Call]int
+	callName       map[*ssa.Call]string
 	sortCount      int
 	rangeEntry     map[*ssa.Range]Term
 	rangeOfLoop    map[*ssa.BasicBlock]*ssa.Range
@@ -686,7 +688,26 @@ func (x *Exec) applyUninterp(e *Env, sf *SpecFn, args []TV) TV {
 	return TV{App(rt.sort, name, ts...), ty}
 }
 
+func (x *Exec) ghostHeap(name string) string { return "$gv_" + name }
+
+func (x *Exec) ghostVar(name string) *GhostVar {
+	if x.con == nil {
+		return nil
+	}
+	for i := range x.con.Ghosts {
+		if x.con.Ghosts[i].Name == name {
+			return &x.con.Ghosts[i]
+		}
+	}
+	return nil
+}
+
 func (x *Exec) lookupIdent(e *Env, name string) (TV, bool) {
+	// ghost locals of the function under proof
+	if g := x.ghostVar(name); g != nil && e.st != nil {
+		st := x.parseSpecType(g.Type, token.NoPos)
+		return TV{e.st.Heap(x, x.ghostHeap(name), st.sort), st.ty}, true
+	}
 	// named spec constants
 	if src, ok := x.db.Consts[name]; ok {
 		ex, err := ParseExpr(src)
@@ -819,6 +840,21 @@ func VerifyFunction(ld *Loader, db *ContractDB, fn *ssa.Function, con *Contract)
 	for i := 0; i < res.Len(); i++ {
 		n := res.At(i).Name()
 		x.results = append(x.results, resultVar{n, res.At(i).Type()})
+	}
+	for _, g := range con.Ghosts {
+		gt := x.parseSpecType(g.Type, token.NoPos)
+		var v TV
+		if g.Init.Kind == EIdent && g.Init.Name == "zero" && gt.ty != nil {
+			v = TV{x.tm.Zero(gt.ty), gt.ty}
+		} else if g.Init.Kind == EIdent && g.Init.Name == "any" {
+			v = TV{x.b.Fresh("gvinit_"+g.Name, gt.sort), gt.ty}
+		} else {
+			v = x.newEnv(x.paramVars(), st, st).Tr(g.Init)
+		}
+		if v.T.Sort != gt.sort {
+			x.fail("ghost %s: initial value of sort %s, declared %s", g.Name, v.T.Sort, gt.sort)
+		}
+		st.heaps[x.ghostHeap(g.Name)] = x.b.Def("gv_"+g.Name, v.T)
 	}
 	x.entry = st.clone()
 	for _, fr := range con.Fresh {
@@ -1590,9 +1626,55 @@ func (x *Exec) loopModifies(f *Frame, li *loopInfo) modInfo {
 	for b := range li.body {
 		for _, ins := range b.Instrs {
 			x.instrModifies(f, ins, &mi, 0)
+			if f.top && x.con != nil {
+				if c, ok := ins.(*ssa.Call); ok {
+					name, k := x.staticCallOrdinal(f, c)
+					for _, gu := range x.con.GhostUpd {
+						if gu.Callee == name && gu.K == k {
+							if g := x.ghostVar(gu.Name); g != nil {
+								mi.heaps[x.ghostHeap(gu.Name)] = x.parseSpecType(g.Type, token.NoPos).sort
+							}
+						}
+					}
+				}
+			}
 		}
 	}
 	return mi
+}
+
+// staticCallOrdinal names a call instruction by its callee's short name ("append" for the builtin,
+// "sort.Slice" for the sort helpers) and its ordinal among the calls of that name in the function's
+// instruction order (block index, then position in the block).
+func (x *Exec) staticCallOrdinal(f *Frame, c *ssa.Call) (string, int) {
+	if x.callOrd == nil {
+		x.callOrd = map[*ssa.Call]int{}
+		x.callName = map[*ssa.Call]string{}
+		n := map[string]int{}
+		for _, b := range f.fn.Blocks {
+			for _, ins := range b.Instrs {
+				cc, ok := ins.(*ssa.Call)
+				if !ok {
+					continue
+				}
+				name := ""
+				if bi, ok := cc.Call.Value.(*ssa.Builtin); ok {
+					name = bi.Name()
+				} else if cc.Call.IsInvoke() {
+					name = cc.Call.Method.Name()
+				} else if sc := cc.Call.StaticCallee(); sc != nil {
+					name = sc.Name()
+					if sc.Pkg != nil && sc.Pkg.Pkg.Path() == "sort" {
+						name = "sort." + name
+					}
+				}
+				x.callName[cc] = name
+				x.callOrd[cc] = n[name]
+				n[name]++
+			}
+		}
+	}
+	return x.callName[c], x.callOrd[c]
 }
 
 func (x *Exec) rootOfAddr(v ssa.Value) (alloc *ssa.Alloc, heap string, hsort Sort, ok bool) {
